@@ -608,7 +608,8 @@ func (dsc *dataStoreCommand) bitfieldWrite(keyName string, ops []*bitfieldOp) (o
 						newValue = signExtend(newValue, bits)
 					}
 				case OFLOW_SAT:
-					newValue = saturateValue(op.signed, newValue, bits)
+					// saturate towards the side the operand pushes to (the wrapped sum may have the wrong sign)
+					newValue = saturateValue(op.signed, op.value, bits)
 				case OFLOW_FAIL:
 					results = append(results, nil)
 					continue
